@@ -136,6 +136,15 @@ type item struct {
 	name    string
 	ts, val scalar
 	desc    string
+	// where the name object sits in spec (first element of the outer sequence), -1 if the item has no name object
+	nameIdx  int
+	nameSpec pyh.Spec
+}
+
+func (it *item) setName(s pyh.Spec) {
+	v := append([]pyh.Spec(nil), it.spec.V.([]pyh.Spec)...)
+	v[it.nameIdx] = s
+	it.spec.V = v
 }
 
 var namePool = []string{"a.b", "foo.bar", "srv.cpu;dc=1;host=x", "unit=B.mtype=gauge.x=y", "with space", "café.ü", "日本", "x", "stats.timers.a_b-c.upper_90"}
@@ -157,7 +166,7 @@ func genItem(t *rapid.T, py2 bool) item {
 	}
 	ts := genScalar(t, "ts", py2)
 	val := genScalar(t, "val", py2)
-	it := item{name: name, nameUni: nameUni, py2: py2, ts: ts, val: val}
+	it := item{name: name, nameUni: nameUni, py2: py2, ts: ts, val: val, nameIdx: 0, nameSpec: nameSpec}
 	switch k := rapid.IntRange(0, 19).Draw(t, "itemshape"); {
 	case k <= 13:
 		it.spec = seq(t, "outer", nameSpec, seq(t, "inner", ts.spec, val.spec))
@@ -172,6 +181,7 @@ func genItem(t *rapid.T, py2 bool) item {
 	case k == 16:
 		it.spec = seq(t, "outer", rapid.SampledFrom([]pyh.Spec{pyh.Int("7"), pyh.None(), pyh.Float("1.5")}).Draw(t, "badname"), seq(t, "inner", ts.spec, val.spec))
 		it.desc = "name-not-string"
+		it.nameIdx = -1
 	case k == 17:
 		it.spec = seq(t, "outer", nameSpec, rapid.SampledFrom([]pyh.Spec{pyh.Dict(), pyh.None(), pyh.Int("5"), pyh.Str("x")}).Draw(t, "baddata"))
 		it.desc = "data-not-sequence"
@@ -181,6 +191,7 @@ func genItem(t *rapid.T, py2 bool) item {
 	default:
 		it.spec = rapid.SampledFrom([]pyh.Spec{pyh.None(), pyh.Int("1"), pyh.Str("notanitem"), pyh.Dict()}).Draw(t, "notseq")
 		it.desc = "item-not-sequence"
+		it.nameIdx = -1
 	}
 	return it
 }
@@ -365,6 +376,8 @@ func TestPropPickleVsPlain(t *testing.T) {
 		var descs []string
 		encodings := map[string]bool{}
 		nitems := 0
+		shared := 0
+		sharedLater := false
 		for f := 0; f < nframes; f++ {
 			proto := rapid.IntRange(0, maxProto).Draw(t, "proto")
 			n := rapid.IntRange(0, 8).Draw(t, "nitems")
@@ -373,8 +386,27 @@ func TestPropPickleVsPlain(t *testing.T) {
 			}
 			items := make([]pyh.Spec, n)
 			fd := []string{}
+			// Real clients build their lists from a pool of name objects: with `share` the second and later uses of a
+			// name (same text and same Python type) inside a frame are references to the first object, so that the
+			// pickle carries memo opcodes; the memo is per pickle, so references in a later frame must resolve within it.
+			share := rapid.Bool().Draw(t, "shareNames")
+			nameID := map[string]int{}
 			for i := range items {
 				it := genItem(t, py.py2)
+				if share && it.nameIdx >= 0 {
+					key := fmt.Sprintf("%v|%s", it.nameUni, it.name)
+					if k, ok := nameID[key]; ok {
+						it.setName(pyh.Ref(k))
+						shared++
+						if f > 0 {
+							sharedLater = true
+						}
+					} else {
+						k = len(nameID)
+						nameID[key] = k
+						it.setName(it.nameSpec.WithID(k))
+					}
+				}
 				items[i] = it.spec
 				exp = append(exp, expect(it, proto))
 				fd = append(fd, it.desc)
@@ -511,7 +543,7 @@ func TestPropPickleVsPlain(t *testing.T) {
 		if len(ctx) > 300 {
 			ctx = ctx[:300] + "..."
 		}
-		rec.Case(ctx+fmt.Sprintf(" %x", hashB(stream)), nt, "py="+py.name, "impl="+impl, fmt.Sprintf("hit-known-finding=%v", knownHit), fmt.Sprintf("stream>4096B=%v", len(stream) > 4096))
+		rec.Case(ctx+fmt.Sprintf(" %x", hashB(stream)), nt, "py="+py.name, "impl="+impl, fmt.Sprintf("hit-known-finding=%v", knownHit), fmt.Sprintf("stream>4096B=%v", len(stream) > 4096), fmt.Sprintf("memo-references>0=%v", shared > 0), fmt.Sprintf("memo-references-in-later-frame=%v", sharedLater))
 	})
 }
 
